@@ -391,17 +391,36 @@ class Family:
                 return False
         return True
 
-    def named(self):
-        """The patterns named by the rule function's own messages, and their one-step perturbations."""
-        seen, out = set(), []
+    def named(self, wrap_all=False):
+        """The patterns named by the rule function's own messages, and their one-step perturbations; plus, for the named patterns (for
+        every pattern when wrap_all), the rewritten term used twice by one consumer and by two consumers."""
+        seen, out, base = set(), [], []
         for txt in self.eng.rule_names():
             p = parse_pattern(txt)
             if p is None or not well_formed(p, self.arity):
                 continue
+            base.append(p)
             for q in perturbations(p, self.by_arity, self.consts):
                 if q not in seen and well_formed(q, self.arity):
                     seen.add(q)
                     out.append(q)
+        # the rewritten term used twice by one consumer (the consumer's record names the same variable in two operand positions)
+        # and by two consumers: what the rule substitutes must be substituted everywhere
+        cons = [o for o in ("MUL", "ADD", "EXP") if self.arity.get(o) == 2][:1]
+        for q in (list(out) if wrap_all else [b for b in base if b in seen]):
+            inner = []
+
+            def subterms(t):
+                for c in t[1:]:
+                    if isinstance(c, tuple):
+                        inner.append(c)
+                        subterms(c)
+            subterms(q)
+            # ... and an inner term of the pattern used twice elsewhere (the rule may re-wire that one)
+            for w in [(o, q, q) for o in cons] + [(o, (o, q, "Z"), q) for o in cons] + [(o, q, (o, t, t)) for o in cons for t in inner]:
+                if w not in seen and well_formed(w, self.arity):
+                    seen.add(w)
+                    out.append(w)
         return out
 
     def reducible(self, ops2=("ADD", "AND", "EQ", "LT")):
